@@ -149,9 +149,13 @@ func c12Run(env *core.Env, idx int) *core.CaseResult {
 	}
 	cols := []rm.Col{{Name: "id", K: rm.KInt}, {Name: "g1", K: rm.KInt}, {Name: "g2", K: rm.KInt}, {Name: "val", K: rm.KStr}}
 	banks := 4
-	if exactlyOnce {
-		banks = 1
+	if exactlyOnce || (growing && r.Intn(2) == 0) {
+		banks = 1 // all clients on the same 12 rows: maximal contention (relocations + aborts + internal retries)
 	}
+	if growing {
+		opsPer = opsPer * 3 / 2
+	}
+	desc["banks"] = banks
 	for b := 0; b < banks; b++ {
 		name := fmt.Sprintf("acct%d", b)
 		if err := db.CreateTableSQL(name, cols); err != nil {
@@ -428,7 +432,7 @@ func c12Run(env *core.Env, idx int) *core.CaseResult {
 		if overlap >= 10 {
 			res.Nontrivial = true
 		}
-		result, info := porcupine.CheckOperationsVerbose(c12Model, ops, 90*time.Second)
+		result, info := porcupine.CheckOperationsVerbose(c12Model, ops, 25*time.Second)
 		switch result {
 		case porcupine.Unknown:
 			res.Inconclusive = "porcupine timed out"
